@@ -52,7 +52,7 @@ def to_payload(m):
 def random_history(rng, well_formed=True):
     n = rng.randint(4, 16)
     strokes = [True] * n
-    names = ["Alice", "Bob", "Carol", "Dave", "Wheatley", "Éloïse"]
+    names = ["Alice", "Bob", "Carol", "Dave", "Wheatley", "Éloïse", "alice", "Alice ", "ALICE"]
     known = []
     h = [["global", list(strokes)]]
     for _ in range(rng.randint(1, 120)):
@@ -77,6 +77,15 @@ def random_history(rng, well_formed=True):
                 b = rng.randint(1, len(strokes)) if well_formed or rng.random() < 0.9 else rng.randint(0, 18)
                 if 1 <= b <= len(strokes):
                     strokes[b - 1] = not strokes[b - 1]
+                if not well_formed and rng.random() < 0.2:
+                    # the payload of a strike is the server's COMPLETE picture: it may differ from what Wheatley had in
+                    # other bells too (a strike it never saw), or even in length
+                    if rng.random() < 0.8:
+                        for _k in range(rng.randint(1, 2)):
+                            j = rng.randrange(len(strokes))
+                            strokes[j] = not strokes[j]
+                    else:
+                        strokes = [rng.random() < 0.5 for _ in range(rng.randint(4, 16))]
                 h.append(["bell_rung", list(strokes), b])
         elif r < 0.96:
             m = rng.randint(4, 16) if rng.random() < 0.7 else len(strokes)
